@@ -356,7 +356,14 @@ def weak_wrapper(prog: Program) -> RuleResult:
     return r
 
 
+def _stream_lazy(prog):
+    # a variable that was only built must not hold the instances its domain would range over: the domain stream is stored, not read
+    from .c10 import stream_lazy
+
+    return stream_lazy(prog)
+
+
 def run(prog: Program, tier: str) -> List[RuleResult]:
     from . import c13
 
-    return [strong_ref(prog), weak_wrapper(prog), c14.sg_coherence(prog), c14.idkey(prog), c14.sg_purge_directions(prog), c13.sg_sweep(prog)]
+    return [strong_ref(prog), weak_wrapper(prog), c14.sg_coherence(prog), c14.idkey(prog), c14.sg_purge_directions(prog), c13.sg_sweep(prog), _stream_lazy(prog)]
